@@ -11,6 +11,7 @@ mod p_editword;
 mod p_infer;
 mod p_lines;
 mod p_norm;
+mod p_kwin;
 mod p_textfn;
 mod p_multigen;
 mod p_pipe;
@@ -52,6 +53,7 @@ fn component(name: &str) -> (ExecFn, GenFn) {
         "lines" => (p_lines::exec, p_lines::gen),
         "textfn" => (p_textfn::exec, p_textfn::gen),
         "norm" => (p_norm::exec, p_norm::gen),
+        "kwin" => (p_kwin::exec, p_kwin::gen),
         "ws" => (p_ws::exec, p_ws::gen),
         "bpetrain" => (p_bpetrain::exec, p_bpetrain::gen),
         "tok" => (p_tok::exec, p_tok::gen),
@@ -88,7 +90,7 @@ fn main() {
             // components whose observation is a function of the case alone are also checked for independence of the
             // calls made before (not the threaded components, whose logs carry timing, nor the dictionary, whose
             // choice among equally frequent entries may differ from run to run)
-            let echo = ["edit", "match", "metrics", "windows", "cstr", "ws", "tok", "coo", "textfn", "lines", "chat", "editword", "norm"].contains(&args[2].as_str());
+            let echo = ["edit", "match", "metrics", "windows", "cstr", "ws", "tok", "coo", "textfn", "lines", "chat", "editword", "norm", "kwin"].contains(&args[2].as_str());
             run_cases_from(cases, first, Duration::from_millis(to), echo, exec, &mut |i, recs| {
                 for r in &recs {
                     let r = strip_nulls(r.clone());
